@@ -148,7 +148,7 @@ def kidCls' (ce : FKid) : Nat := if ce.text then textCls else ce.cls
 def Conforms (flat : Nat → Option FlatClass) : Nat → Obj → Prop
   | 0, _ => False
   | fuel+1, .mk c as tx ks =>
-    if c = textCls then as = [] ∧ ks = [] else
+    if c = textCls then as = [] ∧ ks = [] ∧ tx ≠ none else
     ∃ k, flat c = some k ∧ tx = none ∧
       as.map (·.1) = k.attrs.map (·.member) ∧
       ks.map (·.1) = k.kids.map (·.member) ∧
@@ -208,8 +208,10 @@ theorem roundtrip (flat : Nat → Option FlatClass) (hW : ∀ c k, flat c = some
     by_cases hct : c = textCls
     · subst hct
       simp only [Conforms, if_true] at hc
-      obtain ⟨rfl, rfl⟩ := hc
-      exact ⟨.mk tag [] tx [], by simp [exportObj], rfl, by simp [buildObj, Obj.cls]⟩
+      obtain ⟨rfl, rfl, htx⟩ := hc
+      cases tx with
+      | none => exact absurd rfl htx
+      | some s => exact ⟨.mk tag [] (some s) [], by simp [exportObj], rfl, by simp [buildObj, Obj.cls]⟩
     · simp only [Conforms, hct, if_false] at hc
       obtain ⟨k, hfind, htx, has, hks, hattrs, hkids⟩ := hc
       subst htx
